@@ -4,13 +4,13 @@
    F7, F7b (mpmc disconnect permit) and F7c (mpmc Disconnected before drained). *)
 From Coq Require Import List Arith.
 Import ListNotations.
-Require MayV.Sync.ChanMpscModel MayV.Sync.ChanMpscInv MayV.Sync.ChanMpscThm.
-Require MayV.Sync.ChanSpscModel MayV.Sync.ChanSpscInv MayV.Sync.ChanSpscThm.
-Require MayV.Sync.ChanMpmcModel MayV.Sync.ChanMpmcInv MayV.Sync.ChanMpmcThm.
+Require MayV.Sync.ChanMpscModel MayV.Sync.ChanMpscInv MayV.Sync.ChanMpscThm MayV.Sync.ChanMpscDrop.
+Require MayV.Sync.ChanSpscModel MayV.Sync.ChanSpscInv MayV.Sync.ChanSpscThm MayV.Sync.ChanSpscDrop.
+Require MayV.Sync.ChanMpmcModel MayV.Sync.ChanMpmcInv MayV.Sync.ChanMpmcThm MayV.Sync.ChanMpmcDrop.
 
 (* ======================================== mpsc ======================================== *)
 Module Mpsc.
-Import MayV.Sync.ChanMpscModel MayV.Sync.ChanMpscInv MayV.Sync.ChanMpscThm.
+Import MayV.Sync.ChanMpscModel MayV.Sync.ChanMpscInv MayV.Sync.ChanMpscThm MayV.Sync.ChanMpscDrop.
 
 (* (iii) after the last sender's drop: a suspended receiver always has a waker in flight ... *)
 Theorem C07_mpsc_no_receiver_parked_after_last_sender : forall s, Reach s -> senders_quiet s ->
@@ -45,6 +45,45 @@ Theorem C07_mpsc_send_after_port_drop : forall s a, Reach s ->
 Proof. exact mpsc_receiver_gone. Qed.
 Print Assumptions C07_mpsc_send_after_port_drop.
 
+(* (iv) leftovers are dropped exactly once.  Where: only drop_port's pop loop (one value per step) and the free of the
+   channel (everything that is left) add to `drpd` ... *)
+Theorem C07_mpsc_drop_sites : forall s ac s', step s ac = Some s' ->
+  drpd s' = drpd s \/
+  (ac = RStep /\ rp (R s) = RPd1 /\ exists v, q s = v :: q s' /\ drpd s' = drpd s ++ [v]) \/
+  (ac = Free /\ drpd s' = drpd s ++ q s /\ q s' = [] /\ freed s' = true).
+Proof. exact mpsc_drop_sites. Qed.
+Print Assumptions C07_mpsc_drop_sites.
+
+(* ... nothing is dropped while the Receiver is alive and not inside its drop ... *)
+Theorem C07_mpsc_no_drop_while_receiver_alive : forall s, Reach s -> ralive (R s) = true -> rp (R s) <> RPd1 -> drpd s = [].
+Proof. exact mpsc_no_drop_while_receiver_alive. Qed.
+Print Assumptions C07_mpsc_no_drop_while_receiver_alive.
+
+(* ... Receiver::drop returns only with the queue empty (all Ok-sent values so far: received or dropped) ... *)
+Theorem C07_mpsc_port_drop_returns_drained : forall s s', Reach s -> step s RStep = Some s' ->
+  rp (R s) = RPd1 -> ralive (R s') = false -> q s' = [] /\ sent s' = rcvd s' ++ drpd s' /\ pdrop s' = true.
+Proof. exact mpsc_port_drop_returns_drained. Qed.
+Print Assumptions C07_mpsc_port_drop_returns_drained.
+
+(* ... and once the channel is freed (a send that raced with drop_port may have pushed after the drain: the free drops
+   it) every Ok-sent value was received exactly once XOR dropped exactly once: never both, never neither; nothing moves
+   after the free *)
+Theorem C07_mpsc_freed_received_xor_dropped : forall s v, Reach s -> freed s = true ->
+  q s = [] /\ sent s = rcvd s ++ drpd s /\
+  (In v (sent s) -> (cnt v (rcvd s) = 1 /\ cnt v (drpd s) = 0) \/ (cnt v (rcvd s) = 0 /\ cnt v (drpd s) = 1)).
+Proof. exact mpsc_freed_received_xor_dropped. Qed.
+Print Assumptions C07_mpsc_freed_received_xor_dropped.
+
+Theorem C07_mpsc_freed_is_final : forall s ac s', Reach s -> freed s = true -> step s ac = Some s' ->
+  sent s' = sent s /\ rcvd s' = rcvd s /\ drpd s' = drpd s /\ q s' = [] /\ freed s' = true.
+Proof. exact mpsc_freed_is_final. Qed.
+Print Assumptions C07_mpsc_freed_is_final.
+
+Example C07_mpsc_late_push_dropped_at_free :
+  let s := run init (sch_late_push ++ [Free]) in
+  Reach s /\ freed s = true /\ q s = [] /\ rcvd s = [] /\ drpd s = [(0, 0)] /\ sent s = [(0, 0)].
+Proof. exact late_push_dropped_at_free. Qed.
+
 Example C07_mpsc_nonvacuous :
   let s := run init [Recv true; RStep; RStep; RStep; RStep; DropChan 0; SStep 0; SStep 0; SStep 0; RStep; RStep; RStep; RStep] in
   Reach s /\ rp (R s) = RIdle /\ rres (R s) = RDisc /\ chans s = 0.
@@ -53,7 +92,7 @@ End Mpsc.
 
 (* ======================================== spsc ======================================== *)
 Module Spsc.
-Import MayV.Sync.ChanSpscModel MayV.Sync.ChanSpscInv MayV.Sync.ChanSpscThm.
+Import MayV.Sync.ChanSpscModel MayV.Sync.ChanSpscInv MayV.Sync.ChanSpscThm MayV.Sync.ChanSpscDrop.
 
 Theorem C07_spsc_no_receiver_blocked_after_sender_drop : forall s, Reach true s -> sp (Sn s) = SIdle ->
   (rp (R s) = RPark /\ ttok s = false) \/ (rp (R s) = RSusp /\ runq s = false) -> q s = [] /\ chans s <> 0.
@@ -78,6 +117,39 @@ Theorem C07_spsc_send_after_port_drop : forall s, Reach true s ->
 Proof. exact spsc_receiver_gone. Qed.
 Print Assumptions C07_spsc_send_after_port_drop.
 
+(* (iv) leftovers dropped exactly once: as for mpsc *)
+Theorem C07_spsc_drop_sites : forall s ac s', step true s ac = Some s' ->
+  drpd s' = drpd s \/
+  (ac = RStep /\ rp (R s) = RPd1 /\ exists v, q s = v :: q s' /\ drpd s' = drpd s ++ [v]) \/
+  (ac = Free /\ drpd s' = drpd s ++ q s /\ q s' = [] /\ freed s' = true).
+Proof. exact (spsc_drop_sites true). Qed.
+Print Assumptions C07_spsc_drop_sites.
+
+Theorem C07_spsc_no_drop_while_receiver_alive : forall s, Reach true s -> ralive (R s) = true -> rp (R s) <> RPd1 -> drpd s = [].
+Proof. exact spsc_no_drop_while_receiver_alive. Qed.
+Print Assumptions C07_spsc_no_drop_while_receiver_alive.
+
+Theorem C07_spsc_port_drop_returns_drained : forall s s', Reach true s -> step true s RStep = Some s' ->
+  rp (R s) = RPd1 -> ralive (R s') = false -> q s' = [] /\ sent s' = rcvd s' ++ drpd s' /\ pdrop s' = true.
+Proof. exact spsc_port_drop_returns_drained. Qed.
+Print Assumptions C07_spsc_port_drop_returns_drained.
+
+Theorem C07_spsc_freed_received_xor_dropped : forall s v, Reach true s -> freed s = true ->
+  q s = [] /\ sent s = rcvd s ++ drpd s /\
+  (In v (sent s) -> (cnt v (rcvd s) = 1 /\ cnt v (drpd s) = 0) \/ (cnt v (rcvd s) = 0 /\ cnt v (drpd s) = 1)).
+Proof. exact spsc_freed_received_xor_dropped. Qed.
+Print Assumptions C07_spsc_freed_received_xor_dropped.
+
+Theorem C07_spsc_freed_is_final : forall s ac s', Reach true s -> freed s = true -> step true s ac = Some s' ->
+  sent s' = sent s /\ rcvd s' = rcvd s /\ drpd s' = drpd s /\ q s' = [] /\ freed s' = true.
+Proof. exact spsc_freed_is_final. Qed.
+Print Assumptions C07_spsc_freed_is_final.
+
+Example C07_spsc_late_push_dropped_at_free :
+  let s := run true init (sch_late_push ++ [Free]) in
+  Reach true s /\ freed s = true /\ q s = [] /\ rcvd s = [] /\ drpd s = [0] /\ sent s = [0].
+Proof. exact late_push_dropped_at_free. Qed.
+
 (* the code before the F6 repair (7fc6074): the coroutine receiver is suspended for ever, the sender gone *)
 Theorem C07_spsc_recv_hang_refuted :
   exists s, Reach false s /\ stuck s /\ chans s = 0 /\ q s = [] /\ slot s = Some WC.
@@ -87,7 +159,7 @@ End Spsc.
 
 (* ======================================== mpmc ======================================== *)
 Module Mpmc.
-Import MayV.Sync.ChanMpmcModel MayV.Sync.ChanMpmcInv MayV.Sync.ChanMpmcThm.
+Import MayV.Sync.ChanMpmcModel MayV.Sync.ChanMpmcInv MayV.Sync.ChanMpmcThm MayV.Sync.ChanMpmcDrop.
 
 (* (iii) every Sender gone and nobody with a step left: nobody is blocked in sem.wait(), a permit is
    left over (so every later call returns), and the permits cover the queued values (so the calls
@@ -117,6 +189,47 @@ Theorem C07_mpmc_send_after_last_receiver : forall s a, Reach true true true s -
   rxp s = 0 /\ (sp (Sd s a) = M0 \/ (sp (Sd s a) = SIdle /\ sres (Sd s a) = false)).
 Proof. exact (mpmc_send_after_last_receiver true). Qed.
 Print Assumptions C07_mpmc_send_after_last_receiver.
+
+(* (iv) leftovers dropped exactly once.  Where: only the pop loop of the LAST Receiver's drop_rx and the free ... *)
+Theorem C07_mpmc_drop_sites : forall s ac s', step true true true s ac = Some s' ->
+  drpd s' = drpd s \/
+  (exists r, ac = RStep r /\ rp (Rv s r) = X1 /\ exists v, q s = v :: q s' /\ drpd s' = drpd s ++ [v]) \/
+  (ac = Free /\ drpd s' = drpd s ++ q s /\ q s' = [] /\ freed s' = true).
+Proof. exact (mpmc_drop_sites true true true). Qed.
+Print Assumptions C07_mpmc_drop_sites.
+
+Theorem C07_mpmc_no_drop_while_a_receiver_is_counted : forall s, Reach true true true s -> rxp s <> 0 -> drpd s = [].
+Proof. exact (mpmc_no_drop_while_a_receiver_is_counted true). Qed.
+Print Assumptions C07_mpmc_no_drop_while_a_receiver_is_counted.
+
+(* ... the drop_rx that brings rx_ports to 0 enters the pop loop whatever tx_ports is (seeded change C07-6 skips it while
+   a Sender is alive) and returns only with the queue empty ... *)
+Theorem C07_mpmc_last_receiver_drop_enters_the_drain : forall s r s', step true true true s (RStep r) = Some s' ->
+  rp (Rv s r) = X0 -> rxp s' = 0 -> rp (Rv s' r) = X1.
+Proof. exact (mpmc_last_receiver_drop_enters_the_drain true true true). Qed.
+Print Assumptions C07_mpmc_last_receiver_drop_enters_the_drain.
+
+Theorem C07_mpmc_last_receiver_drop_returns_drained : forall s r s', Reach true true true s -> step true true true s (RStep r) = Some s' ->
+  rp (Rv s r) = X1 -> rp (Rv s' r) = YIdle -> rxp s' = 0 /\ q s' = [] /\ sent s' = recvd s' ++ drpd s'.
+Proof. exact (mpmc_last_receiver_drop_returns_drained true). Qed.
+Print Assumptions C07_mpmc_last_receiver_drop_returns_drained.
+
+(* ... and once the channel is freed every Ok-sent value was received by exactly one call XOR dropped exactly once *)
+Theorem C07_mpmc_freed_received_xor_dropped : forall s v, Reach true true true s -> freed s = true ->
+  q s = [] /\ sent s = recvd s ++ drpd s /\
+  (In v (sent s) -> (cnt v (recvd s) = 1 /\ cnt v (drpd s) = 0) \/ (cnt v (recvd s) = 0 /\ cnt v (drpd s) = 1)).
+Proof. exact (mpmc_freed_received_xor_dropped true). Qed.
+Print Assumptions C07_mpmc_freed_received_xor_dropped.
+
+Theorem C07_mpmc_freed_is_final : forall s ac s', Reach true true true s -> freed s = true -> step true true true s ac = Some s' ->
+  sent s' = sent s /\ rlog s' = rlog s /\ drpd s' = drpd s /\ q s' = [] /\ freed s' = true.
+Proof. exact (mpmc_freed_is_final true). Qed.
+Print Assumptions C07_mpmc_freed_is_final.
+
+Example C07_mpmc_last_receiver_drop_drains :
+  let s := run true true true init sch_rxdrop in
+  Reach true true true s /\ rxp s = 0 /\ txp s = 1 /\ drpd s = [(0, 0)] /\ q s = [(0, 1)] /\ sres (Sd s 0) = true.
+Proof. exact last_receiver_drop_drains. Qed.
 
 (* Disconnected is decided only when the queue is empty or every queued value is claimed by a permit
    in flight (another receiver inside its call, or the last dropper about to post) ... *)
